@@ -70,6 +70,52 @@ def run(repo: Repo, L: Ledger, tier: str):
             L.check(ok, "R1", inst, "gap argument is the configured join gap", f"gap argument '{norm(actual)}' is defined as {[norm(s) for s in srcs]}, not the configured join gap self.default_gap", f.loc(c))
     L.floor("R1", "append_scaffold call sites", n_sites, 2)
 
+    # ---- R6: a piece without rows is never appended with the join gap (append_scaffold adds the gap whenever the
+    # receiver already holds rows: an empty piece would leave a trailing gap / two consecutive gaps)
+    L.rule("R6", "an empty piece is never appended with the join gap")
+    from ..flow import cond_facts
+
+    oth_p = app.params()[1]
+    callee_guards = any(isinstance(n, ast.If) and any(norm(t) == f"{oth_p}.rows" and v for t, v in cond_facts(n.test, True)) and any(isinstance(c, ast.Call) and "add_row" in norm(c) or "append" in norm(c) for s_ in n.body for c in [s_, *walk_shallow(s_)]) for n in walk_shallow(app.node))
+    for f in repo.functions.values():
+        sites = [c for c in repo.calls_in(f) if isinstance(c.func, ast.Attribute) and c.func.attr == "append_scaffold" and arg_for_param(c, app, gap_param) is not None]
+        if not sites or f.cls is None or f.cls.name != "BuildAssembly":
+            continue
+        for c in sites:
+            piece = c.args[0] if c.args else None
+            root = piece
+            while isinstance(root, ast.Call | ast.Attribute):
+                root = root.func if isinstance(root, ast.Call) else root.value
+            inst = f"{f.short}:{norm(c)[:60]}:non-empty"
+            if not isinstance(root, ast.Name):
+                raise AnalysisError(f"{inst}: appended piece '{norm(piece)}' is not derived from a local")
+            if callee_guards:
+                L.ok("R6", inst, "append_scaffold itself adds the gap only for a piece that has rows", f.loc(c))
+                continue
+            bad_path = None
+            n_p = 0
+            for p_ in paths(f, (0, 1), exc_edges=False):
+                if not any(e.kind == "stmt" and (e.node is c or any(x is c for x in walk_shallow(e.node))) for e in p_.events):
+                    continue
+                n_p += 1
+                guarded = False
+                for e in p_.events:
+                    if e.kind == "stmt" and (e.node is c or any(x is c for x in walk_shallow(e.node))):
+                        break
+                    if e.kind == "cond":
+                        for t, v in cond_facts(e.node, e.val):
+                            if norm(t).replace(" ", "") in (f"{root.id}.rows", f"len({root.id}.rows)") and v:
+                                guarded = True
+                    if e.kind == "iter" and e.val[0] == "next" and isinstance(e.node.target, ast.Name) and e.node.target.id == root.id:
+                        guarded = False  # a new element: earlier facts were about another piece
+                if not guarded and bad_path is None:
+                    bad_path = p_
+            L.check(
+                bad_path is None and n_p > 0, "R6", inst, f"every path to the fuse call ({n_p}) has established that the piece has rows",
+                f"'{norm(piece)}' can be appended with the join gap although it has no rows (an overlap result emptied by the overhang resolver): the fused scaffold then ends in a gap row, or carries two consecutive gaps ({bad_path.describe()[:120] if bad_path else ''})",
+                f.loc(c), witness={"map": "a single-texel piece inside a longer contig, painted into the same scaffold as its neighbours"},
+            )
+
     # ---- R2
     cli = repo.try_func("cli", "pretext_to_asm")
     if cli is None:
@@ -154,6 +200,15 @@ def run(repo: Repo, L: Ledger, tier: str):
                             walks[var] = True
         ok4 = walks.get(lo) and walks.get(hi)
         why4 = f"no inward Gap-stripping walk for index {[v for v in (lo, hi) if not walks.get(v)]}: a returned result could start or end with a gap row"
+    if not ok4:
+        # refuted only when nothing in the lookup looks at Gap rows at all; any other way of stripping is "not understood"
+        gap_tests = [c for c in walk_shallow(find.node) if isinstance(c, ast.Call) and dotted(c.func) == "isinstance" and len(c.args) == 2 and dotted(c.args[1]) == "Gap"]
+        helper_calls = [c for c in repo.calls_in(find) if repo.resolve_call(c, find)[0] and dotted(c.func) not in ("OverlapResult",)]
+        missing = [v for v in (lo, hi) if v and not walks.get(v)] if len(slices) == 1 and isinstance(slices[0].slice.lower, ast.Name) else []
+        mention = lambda c, v: any(isinstance(x, ast.Name) and x.id == v for x in ast.walk(c))  # noqa: E731
+        unclear = "not found" in why4 or not missing or any(mention(c, v) for v in missing for c in [*gap_tests, *helper_calls])
+        if unclear:
+            raise AnalysisError(f"{find.short}: terminal-gap stripping is not written as two inward while-walks over the slice indices ({why4}): form not understood")
     L.check(bool(ok4), "R4", find.short, "leading and trailing gap rows are walked off before slicing", why4, find.loc())
 
     # every end removal of an overlap result strips the gaps it exposes (pairing rule shared with C18.R4)
